@@ -187,6 +187,36 @@ theorem C04_escaped_in_every_position (o : Std.TreeMap.Raw String Lean.Json) (sv
   have hw := walk_fos { defs := [] } (mergeTexts frags) out hm (initState (.obj o)) hag 100000000 (by omega)
   simp only [renderModel, h3, StateT.run, hw, hout, String.empty_append]
 
+open Pug.JS Pug.Props.C01S Pug.Driver in
+/-- **C04 (raw only where the template asks for it).** The unescaped form `!= e` of the same documents prints the string value
+itself - the ONLY difference between the two forms is the escaper, and it is there unless the template author wrote `!=`. -/
+theorem C04_render_raw_end_to_end (o : Std.TreeMap.Raw String Lean.Json) (svs : SEnv) (hd : ScalarData o svs)
+    (hg : ∀ kv ∈ svs, kv.1 ≠ "global") (e : SExpr) (s : String) (inl : Bool)
+    (hw : WF { funcs := engineFuncs ++ [], parserFuncs := engineFuncs ++ [] ++ builtinNames } e) (ht : TopEsc e)
+    (hdepth : e.depth < 50000) (h : sEval svs e = some (.str s)) :
+    renderModel [.codeBuf e.toExpr false inl] (.obj o) [] false = okOut s := by
+  have hc := compileDoc_buffered_raw { funcs := engineFuncs ++ [], parserFuncs := engineFuncs ++ [] ++ builtinNames } e inl hw ht hdepth
+  have hag := agree_initState o svs hd hg
+  have hout := (initState_scalars o svs hd).2
+  obtain ⟨v, hev, rv⟩ := eval_scalar svs e (.str s) h (initState (.obj o)) hag 99999998 (by omega)
+  have hwalk : walk 99999999 { defs := [] } (.print (tr e) false) (initState (.obj o)) =
+      .ok ((), { initState (.obj o) with out := (initState (.obj o)).out ++ s }) := by
+    rw [show (99999999 : Nat) = 99999998 + 1 from rfl]
+    have hw2 : walk (99999998 + 1) { defs := [] } (.print (tr e) false) (initState (.obj o)) = printVal v false (initState (.obj o)) := by
+      simp [walk, hev, bind, StateT.bind, Except.bind]
+    rw [hw2]
+    cases rv <;>
+      simp [printVal, bind, StateT.bind, getHeap, get, getThe, MonadStateOf.get, StateT.get, pure, Except.pure, Except.bind,
+        StateT.pure, sprint, strFuel, objStr, ofOpt, emit, modify, modifyGet, MonadStateOf.modifyGet, StateT.modifyGet]
+  have hrun : walkList 100000000 { defs := [] } [TNode.print (tr e) false] (initState (.obj o)) =
+      .ok ((), { initState (.obj o) with out := (initState (.obj o)).out ++ s }) := by
+    show walkList (99999999 + 1) _ _ _ = _
+    rw [walkList]
+    simp only [bind, StateT.bind, hwalk, Except.bind]
+    show walkList (99999998 + 1) _ [] _ = _
+    simp [walkList, pure, StateT.pure, Except.pure]
+  simp only [renderModel, hc, StateT.run, hrun, hout, String.empty_append]
+
 /-! non-vacuity -/
 example : escapeWith htmlEscape "<b a=\"1\">&'".toList = "&lt;b a=&#34;1&#34;&gt;&amp;&#39;".toList := by decide
 
